@@ -61,6 +61,9 @@ def exp_tabular(b):
             if row.get('cline') and not top:
                 a, bb = row['cline']
                 top = a <= col + 1 and col + c['span'] <= bb
+                if row.get('cline2') and not top:
+                    a, bb = row['cline2']
+                    top = a <= col + 1 and col + c['span'] <= bb
             cells.append({'span': c['span'], 'markers': m, 'top': top, 'bottom': ri == last and bool(b['hline_end']),
                           'left': (col == 0 and b['bars'][0] and not multi), 'right': (b['bars'][col + c['span']] and not multi),
                           'decl': c.get('decl'), 'own_decls': own_decls(c)})
